@@ -932,7 +932,7 @@ def stream_mixed_start(ctx):
             c = json.load(f)
         items.append({'id': 'mk%d' % k, 'source': c['source'], 'path': c.get('path'), 'project': c.get('project', 'explicit'),
                       'kinds': c.get('kinds', ['corpus']), 'family': 'mixed/corpus', 'full': True})
-    base = c01_mixed.programs(rng, ctx.size(60, 1500))
+    base = c01_mixed.programs(rng, ctx.size(60, 600))
     for it in base:
         it['family'] = 'mixed/valid'
         items.append(it)
@@ -1247,22 +1247,34 @@ def run(ctx):
     def lap(name):
         t.append(time.time())
         ctx.notes.append('%s: %.1fs' % (name, t[-1] - t[-2]))
-    join_typed = stream_typed_start(ctx)
-    join_mixed = stream_mixed_start(ctx)
-    cases += stream_validate(ctx, reqs)
-    lap('validate')
-    cases += stream_methods(ctx, reqs)
-    lap('methods')
-    cases += stream_helpers(ctx, reqs)
-    lap('helpers')
-    stream_known(ctx)
-    lap('known probes')
-    cases += stream_api(ctx, reqs)
-    lap('api')
-    cases += stream_typed_finish(ctx, reqs, join_typed)
-    lap('typed (wait + oracle)')
-    stream_mixed_finish(ctx, join_mixed)
-    lap('mixed (wait + oracle)')
+    # development aid: VERIF_C01_ONLY=mixed,api,... runs a subset of the streams
+    only = set(filter(None, os.environ.get('VERIF_C01_ONLY', '').split(',')))
+    on = lambda name: not only or name in only
+    if only:
+        ctx.notes.append('VERIF_C01_ONLY=%s: the other streams were skipped' % ','.join(sorted(only)))
+    join_typed = stream_typed_start(ctx) if on('typed') else None
+    join_mixed = stream_mixed_start(ctx) if on('mixed') else None
+    if on('validate'):
+        cases += stream_validate(ctx, reqs)
+        lap('validate')
+    if on('methods'):
+        cases += stream_methods(ctx, reqs)
+        lap('methods')
+    if on('helpers'):
+        cases += stream_helpers(ctx, reqs)
+        lap('helpers')
+    if on('known'):
+        stream_known(ctx)
+        lap('known probes')
+    if on('api'):
+        cases += stream_api(ctx, reqs)
+        lap('api')
+    if join_typed is not None:
+        cases += stream_typed_finish(ctx, reqs, join_typed)
+        lap('typed (wait + oracle)')
+    if join_mixed is not None:
+        stream_mixed_finish(ctx, join_mixed)
+        lap('mixed (wait + oracle)')
     if ctx.model_ok:
         answers = common.run_driver_parallel('C01', reqs)
         lap('driver')
